@@ -202,6 +202,9 @@ class Cplex(Suite):
             # penalties of ties just below / at / above the average of the two orders, on the 1/8000 grid
             t = 0.5 + rng.choice([-4, -3, -2, -1, 0, 1]) * 0.000125
             cases.append({"s": [[0., 1., 1., 0., 1., 0.], [t, t, 0., 1., 1., 0.]], "D": cyclic_dataset(rng, 4)})
+        for _ in range(25 if tier == "quick" else 300):       # elements that can be tied two by two along a chain but not all together
+            D, s = chain_tie_dataset(rng)
+            cases.append({"s": s, "D": D})
         for _ in range(30 if tier == "quick" else 600):
             nmax = rng.choice([3, 4, 4]) if tier == "quick" else rng.choice([4, 5, 5])
             cases.append({"s": opt_scheme(rng), "D": layered_dataset(rng, nmax, 4) if rng.random() < 0.5 else gen.random_dataset(rng, nmax, 4)})
